@@ -282,6 +282,11 @@ func vGenCfg(rng *vRand, timeoutReal time.Duration, timeoutTerm int) vCfg {
 			max = size + rng.Intn(5)
 		}
 	}
+	// the property quantifies over what Config.Validate ACCEPTS: one configuration in twelve has max < size; the
+	// callers use it only if the current Validate lets it through (on the unchanged tree it never does)
+	if size > 1 && rng.Intn(12) == 0 {
+		max = 1 + rng.Intn(size-1)
+	}
 	var keys, low []string
 	nk := rng.Pick(4, 3, 2, 1)
 	perm := []int{0, 1, 2}
@@ -306,6 +311,15 @@ func vGenCfg(rng *vRand, timeoutReal time.Duration, timeoutTerm int) vCfg {
 	}
 	term := fmt.Sprintf("(HC %d false %d %d %s %d)", timeoutTerm, size, max, vList(ks), limit)
 	return vCfg{cfg: cfg, term: term, keysLow: low, timer: timeoutReal != 0 && size != 0}
+}
+
+// vGenValid draws configurations until the CURRENT Config.Validate accepts one.
+func vGenValid(rng *vRand, timeoutReal time.Duration, timeoutTerm int) vCfg {
+	for {
+		if vc := vGenCfg(rng, timeoutReal, timeoutTerm); vc.cfg.Validate() == nil {
+			return vc
+		}
+	}
 }
 
 func vGenMD(rng *vRand, fam int) (map[string][]string, string) {
@@ -479,6 +493,14 @@ const vLongTimeout = time.Hour
 // once a timer flush has failed, later timer steps wait only briefly (keeps a broken tree's run short)
 var vTimerBroken atomic.Bool
 
+// vFlush pushes what has been recorded so far to the output file: a change that makes a shard goroutine panic
+// kills the test binary, and the failures found before that must survive it.
+func vFlush(out *vOut) {
+	out.mu.Lock()
+	out.w.Flush()
+	out.mu.Unlock()
+}
+
 // a shard goroutine that wedges (e.g. blocks on its timer channel) makes every later wait run into its deadline:
 // after the first such failure the deadlines shrink, after five the remaining processor runs are skipped (the
 // recorded failures are the verdict; this only bounds the time spent on a tree that is already known broken)
@@ -495,6 +517,7 @@ func vDL(d time.Duration) time.Duration {
 
 func vRunCases[T any, P any](t *testing.T, out *vOut, rng *vRand, sg vSignal[T, P], n int) {
 	for c := 0; c < n; c++ {
+		vFlush(out)
 		if vStuckN.Load() >= 5 {
 			out.Stat(sg.name+".runs_skipped_after_stuck", 1)
 			continue
@@ -507,7 +530,8 @@ func vRunCases[T any, P any](t *testing.T, out *vOut, rng *vRand, sg vSignal[T, 
 		vc.fail = rng.Pick(7, 2, 1)
 		out.Stat(fmt.Sprintf("%s.downstream_mode_%d", sg.name, vc.fail), 1)
 		if err := vc.cfg.Validate(); err != nil {
-			t.Fatalf("generator produced an invalid config: %v", err)
+			out.Stat(sg.name+".configs_rejected_by_validate", 1)
+			continue
 		}
 		g := &vGen{r: rng}
 		nops := 1 + rng.Intn(10)
@@ -602,6 +626,10 @@ func vRunOne[T any, P any](t *testing.T, out *vOut, sg vSignal[T, P], vc vCfg, s
 		tagged := sg.items(op.p)
 		tp := vTupleOf(op.md, vc.keysLow)
 		ctx := client.NewContext(context.Background(), client.Info{Metadata: client.NewMetadata(op.md)})
+		if len(op.md) == 0 {
+			ctx = context.Background() // a producer without any client.Info in its context
+			out.Stat(sg.name+".consume_without_client_info", 1)
+		}
 		var err error
 		cdone := make(chan error, 1)
 		go func(d T) { cdone <- consume(ctx, d) }(sg.build(op.p))
@@ -727,6 +755,7 @@ type vRTStep[P any] struct {
 func vTimeoutCases[T any, P any](t *testing.T, out *vOut, rng *vRand, sg vSignal[T, P], n int) {
 	var wg sync.WaitGroup
 	for c := 0; c < n; c++ {
+		vFlush(out)
 		const timeout = 20 * time.Millisecond
 		size := 5 + rng.Intn(5)
 		max := 0
@@ -854,6 +883,7 @@ func vTimeoutCases[T any, P any](t *testing.T, out *vOut, rng *vRand, sg vSignal
 // ---- (4) concurrent producers: conservation, bound and isolation on the emitted multiset ---------------
 func vConcurrentCases[T any, P any](t *testing.T, out *vOut, rng *vRand, sg vSignal[T, P], n int) {
 	for c := 0; c < n; c++ {
+		vFlush(out)
 		if vStuckN.Load() >= 5 {
 			out.Stat(sg.name+".concurrent_skipped_after_stuck", 1)
 			continue
@@ -862,7 +892,7 @@ func vConcurrentCases[T any, P any](t *testing.T, out *vOut, rng *vRand, sg vSig
 		if rng.Bool() {
 			timeoutReal = time.Duration(1+rng.Intn(5)) * time.Millisecond // the real timer fires during the run
 		}
-		vc := vGenCfg(rng, timeoutReal, 1)
+		vc := vGenValid(rng, timeoutReal, 1)
 		fam := rng.Intn(len(vValFamilies))
 		sink := &vSink{perTuple: map[string]int{}}
 		bp, consume, err := sg.newProc(vc.cfg, func(ctx context.Context, d T) error {
@@ -1008,6 +1038,7 @@ func vValidateCases(out *vOut, rng *vRand, n int) {
 // (the model's result does not depend on when a shard processes its channel).
 func vImmediateCases[T any, P any](t *testing.T, out *vOut, rng *vRand, sg vSignal[T, P], n int) {
 	for c := 0; c < n; c++ {
+		vFlush(out)
 		if vStuckN.Load() >= 5 {
 			out.Stat(sg.name+".immediate_skipped_after_stuck", 1)
 			continue
@@ -1017,9 +1048,9 @@ func vImmediateCases[T any, P any](t *testing.T, out *vOut, rng *vRand, sg vSign
 		if rng.Intn(3) != 0 {
 			timeoutReal, timeoutTerm = vLongTimeout, 1000
 		}
-		vc := vGenCfg(rng, timeoutReal, timeoutTerm)
+		vc := vGenValid(rng, timeoutReal, timeoutTerm)
 		for try := 0; try < 10 && len(vc.keysLow) == 0 && c%4 != 3; try++ { // three runs in four with metadata keys
-			vc = vGenCfg(rng, timeoutReal, timeoutTerm)
+			vc = vGenValid(rng, timeoutReal, timeoutTerm)
 		}
 		g := &vGen{r: rng}
 		fam := rng.Intn(len(vValFamilies))
@@ -1169,6 +1200,7 @@ func vImmediateCases[T any, P any](t *testing.T, out *vOut, rng *vRand, sg vSign
 // coq/C17/Bounded.v (calls returned / producers blocked at the check points, and the exports).
 func vBlockedCases[T any, P any](t *testing.T, out *vOut, rng *vRand, sg vSignal[T, P], n int) {
 	for c := 0; c < n; c++ {
+		vFlush(out)
 		if vStuckN.Load() >= 5 {
 			continue
 		}
@@ -1363,6 +1395,7 @@ func vBlockedCases[T any, P any](t *testing.T, out *vOut, rng *vRand, sg vSignal
 // emitted + left in channels = accepted (theorem bp_shutdown_accounting on the implementation).
 func vAfterShutdownCases[T any, P any](t *testing.T, out *vOut, rng *vRand, sg vSignal[T, P], n int) {
 	for c := 0; c < n; c++ {
+		vFlush(out)
 		if vStuckN.Load() >= 5 {
 			continue
 		}
@@ -1370,7 +1403,7 @@ func vAfterShutdownCases[T any, P any](t *testing.T, out *vOut, rng *vRand, sg v
 		if rng.Bool() {
 			timeoutReal, timeoutTerm = vLongTimeout, 1000
 		}
-		vc := vGenCfg(rng, timeoutReal, timeoutTerm)
+		vc := vGenValid(rng, timeoutReal, timeoutTerm)
 		vc.cfg.MetadataCardinalityLimit = 0
 		vc.term = strings.TrimSuffix(vc.term[:strings.LastIndex(vc.term, " ")], " ") + " 0)"
 		g := &vGen{r: rng}
@@ -1488,6 +1521,7 @@ func vAfterShutdownCases[T any, P any](t *testing.T, out *vOut, rng *vRand, sg v
 
 func vConcurrentShutdownCases[T any, P any](t *testing.T, out *vOut, rng *vRand, sg vSignal[T, P], n int) {
 	for c := 0; c < n; c++ {
+		vFlush(out)
 		if vStuckN.Load() >= 5 {
 			continue
 		}
@@ -1495,7 +1529,7 @@ func vConcurrentShutdownCases[T any, P any](t *testing.T, out *vOut, rng *vRand,
 		if rng.Bool() {
 			timeoutReal = time.Duration(1+rng.Intn(5)) * time.Millisecond
 		}
-		vc := vGenCfg(rng, timeoutReal, 1)
+		vc := vGenValid(rng, timeoutReal, 1)
 		fam := rng.Intn(len(vValFamilies))
 		sink := &vSink{perTuple: map[string]int{}}
 		bp, consume, err := sg.newProc(vc.cfg, func(ctx context.Context, d T) error {
